@@ -208,7 +208,7 @@ func programs() []*Program {
 		{Name: "spark-fit", Cmd: "spark", Kind: "table", Flags: []string{"--cols", "20"}, Match: lineRegex,
 			Extract: [][]part{tpl(g(2)), tpl(g(1)), tpl(g(3))}, Corpora: all, HasCSV: true},
 		{Name: "spark-cols2", Cmd: "spark", Kind: "table", Flags: []string{"--cols", "2", "--sort-rows", "text"}, Match: lineRegex,
-			Extract: [][]part{tpl(g(1)), tpl(g(2))}, Corpora: []string{"A", "B"}, HasCSV: true, TrimCols: 2},
+			Extract: [][]part{tpl(g(1), lit("/"), g(2)), tpl(g(2))}, Corpora: []string{"A", "B"}, HasCSV: true, TrimCols: 2},
 		{Name: "bars", Cmd: "bargraph", Kind: "subkey", Match: lineRegex,
 			Extract: [][]part{tpl(g(1)), tpl(g(2)), tpl(g(3))}, Corpora: all, HasCSV: true},
 		{Name: "bars-stacked", Cmd: "bargraph", Kind: "subkey", Flags: []string{"-s"}, Match: lineRegex,
